@@ -191,7 +191,11 @@ def post(lines, verdicts):
                 cen["e_not_run"] += 1
             if obs.startswith("c "):
                 cen["e_cdc"] += 1
-            cen["e_mode_" + f[1]] += 1
+            fetch = f[1][1] if len(f[1]) > 1 else "f"
+            cen["e_scen_" + f[1][0]] += 1
+            cen["e_fetch_" + fetch] += 1
+            if fetch == "m" and obs.startswith("c "):
+                cen["e_minimal_cdc"] += 1
         elif f[0] == "Y":
             if obs.startswith("some:") and len(f[3].split(",")) >= 2:
                 cen["y_composite_ok"] += 1
@@ -215,7 +219,8 @@ def post(lines, verdicts):
                 probs.append(("diff", k, f"diff coverage floor: only {kinds[k]} {k} cases (< {fl})"))
         cfl = {"k2_signed_tail": 3000, "multi_chunk": 5000, "cdc_hash": 1500, "permuted_key_ok": 3000,
                "k_malformed": 300, "too_long": 10, "k_typed_path_compared": 8000, "k_cdc": 1000, "k_5plus_components": 1000,
-               "p_cdc": 100, "p_unknown": 100, "e_cdc": 60, "e_mode_s": 500, "e_mode_x": 30, "e_mode_u": 30,
+               "p_cdc": 100, "p_unknown": 100, "e_cdc": 60, "e_scen_s": 500, "e_scen_x": 30, "e_scen_u": 30, "e_scen_n": 30,
+               "e_fetch_f": 300, "e_fetch_m": 200, "e_fetch_d": 40, "e_minimal_cdc": 15,
                "y_composite_ok": 800, "y_ser_err": 20, "z_cdc": 100}
         for k, fl in cfl.items():
             if cen[k] < fl:
@@ -324,7 +329,7 @@ SPEC = {
              "<=16 markers, permuted, non-key markers value/null/unset interleaved; 15% malformed: null key "
              "component, duplicate / out-of-range pk index, missing values, missing column specs, not token aware), "
              "T = calculate_token_for_partition_key, E = real Session + Session::prepare on a mock cluster whose scylla_tables "
-             "rows are the case's (modes: present / no such table / table unknown), Y = typed CqlValue rows over 8 native "
+             "rows are the case's (scenarios: present / no such table / table unknown / table without column rows) x (full / minimal / disabled schema fetching), Y = typed CqlValue rows over 8 native "
              "key types, Z = hash_one then Sharder::shard_of, R (post) = malformed K cases re-run without overflow checks, "
              "P = PartitionerName::from_str + default on exact, suffixed, "
              "truncated, concatenated and unknown names; 1/6 of the cases use the CDC partitioner; post: per-kind "
@@ -348,7 +353,8 @@ SPEC = {
         "parsers; the runner rebuilds `name.and_then(from_str).unwrap_or_default()` from the hook and the real Default",
     ],
     "assumptions": [
-        "hashed streams are shorter than 2^63 bytes (premise of C03_chunking / C03_feed / C03_token)",
+        "hashed streams are shorter than 2^63 bytes in C03_chunking / C03_feed / C03_token; C03_chunking_all / C03_feed_all / "
+        "C03_token_all drop that premise (the length enters only modulo 2^64)",
         "inside the quantifier (key_ok, decided exactly by key_okb): pk indexes distinct, each names an existing "
         "marker bound to a value, at most 65535 bound values; outside it the model still follows the code (panics and "
         "errors are compared exactly)",
